@@ -85,6 +85,9 @@ def typecheck(n):
     elif k == "when_all":
         need(len(ks) >= 1, "arity")
         vt = VAL
+    elif k == "when_all_range":
+        need(all(c.kind == "leaf" for c in n.kids), "the range holds senders of one type: harness leaves")
+        vt = VAL
     elif k == "when_any":
         need(len(ks) >= 2 and len(set(ks)) == 1, "all children must have the same value type")
         vt = ks[0]
@@ -115,6 +118,8 @@ def typecheck(n):
     if k in ("when_all", "when_any", "stop_when", "sequence", "retry_when", "repeat_effect_until", "let_value", "into_variant",
              "done_as_optional", "any", "via", "typed_via", "on", "variant", "defer", "let_value_with", "lvwss", "lvwst", "allocate", "wqv", "walloc", "unstoppable"):
         need("none" not in ks, "a sender without value types is not usable here")
+    if k == "retry_when" or k == "repeat_effect_until":
+        pass
     n.vt = vt
     return vt
 
@@ -238,6 +243,8 @@ def cpp(n):
         return "unifex::let_done(%s, [&w]() { w.call(%d, {}); return %s; })" % (c[0], i, c[1])
     if k == "finally":
         return "unifex::finally(%s, %s)" % (c[0], c[1])
+    if k == "when_all_range":
+        return "unifex::when_all_range(std::vector<Leaf>{%s})" % ", ".join(c)
     if k in ("sequence", "when_all", "when_any", "stop_when"):
         return "unifex::%s(%s)" % (k, ", ".join(c))
     if k == "retry_when":
@@ -391,6 +398,13 @@ def curated():
     add(("unstoppable", ("lvwss", L)))
     add(("lvwst", L))
     add(("stop_when", ("lvwst", L), LV))
+    # when_all_range
+    add(("when_all_range", L, L))
+    add(("when_all_range", L, L, L))
+    add(("when_all_range",))
+    add(("then", ("when_all_range", L, L)))
+    add(("stop_when", ("when_all_range", L, L), LV))
+    add(("when_all", ("when_all_range", L, L), L))
     # allocator
     add(("allocate", L))
     add(("walloc", ("allocate", L), A(3)))
